@@ -370,3 +370,23 @@ func stack() string {
 	n := runtimeStack(buf)
 	return string(buf[:n])
 }
+
+// SelfTest verifies that the harness can still observe the interpreter the way
+// every check assumes (display capture through exec.GlobalValues, error
+// classification through exec.VerifUnwrap).  A failure is a harness problem
+// (e.g. after an API refactoring), never a property violation.
+func SelfTest() error {
+	o := RunReal("（显示：1、“a”）\n输出2", nil)
+	if o.Panic != "" || o.Err != nil || len(o.Trace) != 1 || o.Val != Canon(float64(2)) {
+		return fmt.Errorf("display capture / result observation does not work: %+v", o)
+	}
+	o = RunReal("输出1 / 0", nil)
+	if o.Err == nil || o.Err.Kind != "runtime" || o.Err.Code != EDivZero {
+		return fmt.Errorf("error classification does not work: %+v", o.Err)
+	}
+	o = RunReal("如果", nil)
+	if o.Err == nil || o.Err.Kind != "syntax" {
+		return fmt.Errorf("syntax error classification does not work: %+v", o.Err)
+	}
+	return nil
+}
